@@ -35,26 +35,52 @@ while i < len(L):
         if ok and assigns:
             nstage += 1
             ind = m.group(1)
-            bufs = sorted(set(a[0] for a in assigns))
+            written = []          # (buf, idx) in program order
             snap = {}
             pre = []
-            for buf in bufs:
-                reads = any(re.search(r'\b%s\[' % buf, a[2]) for a in assigns)
-                if reads:
-                    S = buf.upper() + '_0'
-                    snap[buf] = S
-                    pre.append('%slet ghost %s = %s@;' % (ind, S, buf))
             inv = []
             post = []
-            for (buf, idx, expr) in assigns:
-                rexpr = to_real(expr, consts, 'j', snap)
+            def rowmul(idx):
+                mm = re.match(r'^(\d+) \* n \+ i$', idx)
+                if mm: return int(mm.group(1))
+                if idx == 'n + i': return 1
+                if idx == 'i': return 0
+                return None
+            for p_, (buf, idx, expr) in enumerate(assigns):
+                # a read of a buffer this iteration has already written sees the new value; any other read of a
+                # buffer written by this loop sees the value before the loop (the loop reads entry i before writing it)
+                cur = {}
+                for b2 in sorted(set(a_[0] for a_ in assigns)):
+                    if re.search(r'\b%s\[' % b2, expr):
+                        already = any(b3 == b2 for (b3, _) in written)
+                        if not already:
+                            S = b2.upper() + '_0'
+                            if b2 not in snap:
+                                snap[b2] = S
+                                pre.append('%slet ghost %s = %s@;' % (ind, S, b2))
+                            cur[b2] = S
+                written.append((buf, idx))
+                if buf == 'cont' and (rowmul(idx) or 0) >= 2:
+                    continue      # higher dense rows: only the frame clause below (their formulas belong to C07)
+                rexpr = to_real(expr, consts, 'j', cur)
                 idxj = ' '.join('j' if t == 'i' else t for t in idx.split())
-                cid = 'stage.%s_%s' % (buf, m.group(2))
+                cid = 'stage.%s_%s_%d' % (buf, m.group(2), p_)
                 inv.append('%s    forall|j: int| 0 <= j < i ==> R(#[trigger] %s@[%s]) == %s,   // [%s] %s_inv' % (ind, buf, idxj, rexpr, tag, cid))
                 post.append('%sassert(forall|j: int| 0 <= j < n ==> R(#[trigger] %s@[%s]) == %s);   // [%s] %s' % (ind, buf, idxj, rexpr, tag, cid))
             for buf, S in snap.items():
-                # in place: not yet visited entries are untouched, and entries of other rows are never written
-                inv.append('%s    forall|j: int| i <= j < n ==> #[trigger] %s@[j] == %s[j], %s.len() == %s@.len(),   // [%s] stage.%s_%s_inplace' % (ind, buf, S, S, buf, tag, buf, m.group(2)))
+                rows = sorted(set(rowmul(idx) for (b_, idx) in written if b_ == buf and rowmul(idx) is not None))
+                inv.append('%s    %s.len() == %s@.len(),   // [%s] stage.%s_%s_len' % (ind, S, buf, tag, buf, m.group(2)))
+                for r_ in (rows if not (buf == 'cont') else [r for r in rows if r < 2]):
+                    inv.append('%s    forall|k: int| %d * n + i <= k < %d * n ==> #[trigger] %s@[k] == %s[k],   // [%s] stage.%s_%s_row%d_pending' % (ind, r_, r_ + 1, buf, S, tag, buf, m.group(2), r_))
+            for buf in sorted(set(b_ for (b_, _) in written)):
+                rows = sorted(set(rowmul(idx) for (b_, idx) in written if b_ == buf and rowmul(idx) is not None))
+                if buf == 'cont' and rows and rows[0] > 0:
+                    if buf not in snap:
+                        snap[buf] = 'CONT_0'
+                        pre.append('%slet ghost CONT_0 = cont@;' % ind)
+                        inv.append('%s    CONT_0.len() == cont@.len(),   // [%s] stage.cont_%s_len' % (ind, tag, m.group(2)))
+                    inv.append('%s    forall|k: int| 0 <= k < %d * n ==> #[trigger] cont@[k] == %s[k],   // [C06] dense.lower_rows_untouched_%s_inv' % (ind, rows[0], snap[buf], m.group(2)))
+                    post.append('%sassert(forall|k: int| 0 <= k < %d * n ==> #[trigger] cont@[k] == %s[k]);   // [C06] dense.lower_rows_untouched_%s' % (ind, rows[0], snap[buf], m.group(2)))
             out += pre
             out.append(l)
             # existing invariant lines (lens) follow; insert ours right after them (before the brace)
